@@ -39,6 +39,10 @@ def drive : List String → String
       | .ok l => "ok " ++ showNats l
       | .error e => "raise " ++ e.name
     | none => "bad-arg"
+  | ["calcdur", a, b] =>
+    match text? a, text? b with
+    | some x, some y => showPyText (calcDuration x y)
+    | _, _ => "bad-arg"
   | _ => "bad-op"
 
 def main : IO Unit := do Wire.loop (← IO.getStdin) (← IO.getStdout) drive
